@@ -37,7 +37,8 @@ def compute(prog):
     for ctx, outs in ai.memo.items():
         g.functions.setdefault(ctx[0], []).append((ctx, outs))
     g.loop_heads = {fn: sorted(ai.heads(prog.body(fn))) for fn in g.functions if prog.body(fn) is not None}
-    g.root_outcomes = ai.memo.get((ROOT, ai.ALL, False,
+    g.discipline = dict(ai.discipline)
+    g.root_outcomes = ai.memo.get((ROOT, ai.ALL, (False, False),
                                    (parser_ai.SELF,) + tuple(parser_ai.UNK for _ in range(prog.body(ROOT).argc - 1))))
     g.call_la = {k: set(v) for k, v in ai.call_la.items()}
     return g
